@@ -168,4 +168,17 @@ PROPS = {
                          "the argument that such certificates exclude every common factor is classical and not formalised (the Bezout and divisibility parts are proved)"],
         "assumptions": ["extended gcd / Bezout only over prime fields and within the documented degree bounds"],
     },
+    "C04": {
+        "level": "proof",
+        "lean_targets": ["LP.Props.C04"],
+        "harnesses": [{"name": "h_res", "quick": 2500, "thorough": 40000}],
+        "select": lambda t: t[1] == "res",
+        "nontrivial": lambda t, r: True,
+        "rule": "pairs of polynomials with the same main variable, degrees 1-4 (Sylvester order <= 7), dense and sparse (degree gaps, "
+                "defective chains), coefficients constant or polynomial in 1-2 further variables, common factors of degree 1-2, equal "
+                "operands, p with p'; resultant, psc and subresultant chain in the argument order given (m<n, m=n, m>n all occur). "
+                "Every case is non-trivial; distinct = distinct line.",
+        "trusted_base": ["the Sylvester / subresultant matrices of Model/Resultant.lean are the executable specification (classical determinantal definition); C04_det proves that the model's Laplace expansion is Matrix.det of the denoted matrix for every size; the identification of that determinant with Mathlib's Polynomial.resultant (a reindexing of the same matrix) is not formalised"],
+        "assumptions": ["Sylvester order capped at 7 (larger instances are skipped and counted)"],
+    },
 }
